@@ -78,6 +78,7 @@ type GenOpts struct {
 	MaxDelay       time.Duration
 	ManifestAsBlob bool // allow the C01 finding shape
 	RaceWriter     bool // allow a simulated concurrent writer on one node
+	Trees          bool // allow interior nodes of an unknown media type, traversed by a custom FindSuccessors (Copy / CopyGraph only)
 	TitleClash     bool // allow two different blobs under one title (file-store destination must fail the copy)
 }
 
@@ -108,6 +109,9 @@ func GenCase(rng *rand.Rand, o GenOpts) *Case {
 	go_.TitleClash = o.TitleClash && go_.Titles && c.DstKind == "file" && rng.IntN(3) == 0
 	if rng.IntN(8) == 0 {
 		go_.BigBlob = 1<<20 + rng.IntN(1<<19)
+	}
+	if o.Trees && (c.API == "Copy" || c.API == "CopyGraph") && rng.IntN(4) == 0 {
+		go_.Trees = 1 + rng.IntN(3)
 	}
 	if c.SrcKind == "remote" || c.DstKind == "remote" {
 		// registries treat the Docker config/blob split the same, but Docker
@@ -362,6 +366,9 @@ func (c *Case) Run(ctx context.Context, e *Env) (ocispec.Descriptor, error) {
 	gopts.Concurrency = c.Conc
 	gopts.MaxMetadataBytes = c.MaxMeta
 	e.Mon.Hooks(&gopts)
+	if g.HasTrees() {
+		gopts.FindSuccessors = gen.TreeSuccessors
+	}
 	if c.Mount != "" {
 		gopts.MountFrom = func(ctx context.Context, desc ocispec.Descriptor) ([]string, error) {
 			if err := e.Mon.at(ctx, "cb.MountFrom", e.Mon.node(desc)); err != nil {
